@@ -52,7 +52,7 @@ CONSTANTS
   NF = %d
   Modes = {0, 1}
   Full = %s
-INVARIANTS CountMatches RootsMatchNaive ProofsMatchNaive MemberSound
+INVARIANTS CountMatches RootsMatchNaive ProofsMatchNaive MemberSound SupplementSound
 CHECK_DEADLOCK FALSE
 `, maxH, maxAdd, maxLeaves, minInit, maxInit, nfModel, map[bool]string{true: "TRUE", false: "FALSE"}[full])
 }
@@ -243,7 +243,7 @@ func finish(c *vlib.Ctx, st *stats, traces int64) {
 	for _, n := range st.asks {
 		evals += n
 	}
-	for _, d := range []string{"shim", "vte", "v2txn", "supp", "supp-used"} {
+	for _, d := range []string{"shim", "vte", "v2txn", "supp", "supp-used", "supp-placed", "supp-used-placed"} {
 		if st.asks[d] == 0 {
 			c.Infra("vacuity: door %s never used", d)
 		}
@@ -264,6 +264,13 @@ func finish(c *vlib.Ctx, st *stats, traces int64) {
 			need = append(need, "supp:"+l)
 		}
 		need = append(need, "supp-used:"+usedRole(k))
+		// placement: a genuine copy of the same ID earlier / later in the same block supplement
+		for _, l := range suppLists(k) {
+			for _, pl := range placements(k) {
+				need = append(need, "supp-placed:"+l+"/"+pl)
+			}
+		}
+		need = append(need, "supp-used-placed:"+usedRole(k)+"/genuine-earlier", "supp-used-placed:"+usedRole(k)+"/forged-earlier")
 	}
 	for _, d := range need {
 		v := st.verdicts[d]
@@ -288,7 +295,7 @@ func finish(c *vlib.Ctx, st *stats, traces int64) {
 			d = append(d, "vte", "v2txn")
 		}
 		if len(suppLists(k)) > 0 {
-			d = append(d, "supp", "supp-used")
+			d = append(d, "supp", "supp-used", "supp-placed", "supp-used-placed")
 		}
 		return d
 	}
@@ -296,6 +303,9 @@ func finish(c *vlib.Ctx, st *stats, traces int64) {
 	for k := kSC; k < nKinds; k++ {
 		for _, d := range doorsOf(k) {
 			for _, p := range typePaths(k) {
+				if p == "ID" && (d == "supp-placed" || d == "supp-used-placed") {
+					continue // a copy with another ID has no genuine namesake to be placed next to
+				}
 				if st.fields[d][k.String()+"/"+p] == 0 {
 					missing[d] = append(missing[d], k.String()+"/"+p)
 				}
@@ -304,7 +314,7 @@ func finish(c *vlib.Ctx, st *stats, traces int64) {
 	}
 	for d, ms := range missing {
 		sort.Strings(ms)
-		if d == "v2txn" || d == "supp-used" {
+		if d == "v2txn" || d == "supp-used" || d == "supp-used-placed" {
 			// fields whose alteration makes every attacker transaction invalid for another reason cannot be
 			// judged through this door; they are reported, and judged through the three other doors
 			c.Cov(d+"_fields_without_decisive_probe", ms)
